@@ -44,9 +44,10 @@ EvReset ==
 EvRun ==
     LET e == Rec[l] IN
     /\ e.k = "run"
-    /\ Consistent(st, e)
+    /\ (e.out.died # "" \/ Consistent(st, e))
     /\ pre' = st
-    /\ st' = RunStep(st, e.peer, e.cur, ResIds(e), e.out)
+    \* a run that died returned nothing: the host keeps what it had (and the death itself is C01's business)
+    /\ st' = IF e.out.died # "" THEN st ELSE RunStep(st, e.peer, e.cur, ResIds(e), e.out)
     /\ aux' = aux
 
 EvObs == Rec[l].k = "obs" /\ UNCHANGED <<pre, st, aux>>
@@ -62,6 +63,10 @@ IsObs == l > 1 /\ Last.k = "obs"
 
 Report(id, ok) == ok \/ PrintT(<<"VIOLATION", id, Last.hid, Last.step>>)
 
+\* C01 on honest histories: no run of the real interpreter dies (panic, abort), whatever the script and the schedule;
+\* the observer's merges are runs too
+InvC01 == (IsRun => Report("C01", Last.out.died = ""))
+          /\ (IsObs => Report("C01", \A i \in 1..Len(Last.results) : \A j \in 1..Len(Last.results[i].codes) : Last.results[i].codes[j] # -1))
 InvC02 == IsRun => Report("C02", C02(pre, Last))
 InvC03 == IsRun => Report("C03", C03(pre, Last))
 InvC04 == (IsRun => Report("C04", C04(pre, Last))) /\ (IsObs => Report("C04", C04obs(Last)))
